@@ -7,7 +7,13 @@ quiescence.  The peer's behaviour for a request (`reply`: answers, `eof`: closes
 instead of answering) and the endpoint's reachability for connects (`up`/`down`: refused) are
 scripted.
 
-Script: {'kind': 'pool', 'cfg': [init_s, max_s, exponent], 'ops': [[name, args…], …]}
+The pool's configuration is part of the script: `lo` = min_watermark (with 0 the pool keeps no idle
+connection: the probe connection of Open() / of a reconnection is closed again after a successful
+connect and every request opens its own), `hi` = max_watermark (`inf`: the shipped default Int.MaxValue).
+The real WatermarkPoolSink.Builder is given exactly these values.
+
+Script: {'kind': 'pool', 'cfg': [init_s, max_s, exponent], 'wm': [lo, hi], 'ops': [[name, args…], …]}
+        ('wm' missing: the shipped defaults [1, 'inf'])
 ops: open | req reply|eof | reach up|down | tick ms | wake | close
 """
 import struct
@@ -18,7 +24,7 @@ import gevent
 import rt
 from lib import vfmt
 import fakenet
-from scales.constants import ChannelState, SinkProperties
+from scales.constants import ChannelState, Int, SinkProperties
 from scales.core import ScalesUriParser
 from scales.message import FailedFastError, MethodCallMessage
 from scales.sink import ClientMessageSink, ClientMessageSinkStack, SinkProviderBase
@@ -28,6 +34,7 @@ import scales.resurrector as resmod
 import c09res
 
 COMPONENT = 'respool'
+WMS = [[lo, hi] for lo in (0, 1, 2) for hi in (1, 2, 'inf')]
 STATE = c09res.STATE
 _PORT = [9000]
 
@@ -94,13 +101,21 @@ def gen_script(rng, tier):
         ops += [['reach', 'up'], ['tick', int(cfg[1] * 1000)], ['req', 'reply'], ['req', 'reply']]
     if rng.random() < 0.25:
         ops += [['close'], ['tick', 200000], ['req', 'reply']]
-    return {'kind': 'pool', 'cfg': cfg, 'ops': ops}
+    # the pool configuration: half of the scripts keep no idle connection (min_watermark = 0)
+    wm = [0, rng.choice([1, 2, 'inf'])] if rng.random() < 0.5 else rng.choice(WMS)
+    return {'kind': 'pool', 'cfg': cfg, 'wm': wm, 'ops': ops}
+
+
+def wm_values(script):
+    lo, hi = script.get('wm') or [1, 'inf']
+    return int(lo), (Int.MaxValue if hi == 'inf' else int(hi))
 
 
 def run_script(script):
     fakenet.install()
     cfg = script['cfg']
     table = c09res.backoff_table(cfg)
+    lo, hi = wm_values(script)
     _PORT[0] += 1
     port = _PORT[0]
     srv = fakenet.NET.server('h', port)
@@ -125,7 +140,7 @@ def run_script(script):
         props = {SinkProperties.Endpoint: ScalesUriParser.Endpoint('h', port), SinkProperties.Label: 'svc'}
         rb = resmod.ResurrectorSink.Builder(initial_wait_interval=cfg[0], max_wait_interval=cfg[1],
                                             backoff_exponent=cfg[2])
-        pb = WatermarkPoolSink.Builder()
+        pb = WatermarkPoolSink.Builder(min_watermark=lo, max_watermark=hi)
         tb = SocketTransportSink.Builder()
         pb.next_provider = tb
         rb.next_provider = LogProvider(pb, pools)
@@ -186,6 +201,7 @@ def run_script(script):
                     continue
                 st['opened'] = True
                 tags.add('open-' + ('up' if srv.reachable else 'down'))
+                tags.add('min-watermark-%d' % min(lo, 2))
                 if not srv.reachable:
                     tags.add('connect-refused')
                 r.Open()
@@ -218,6 +234,13 @@ def run_script(script):
                             tags.add('fault-mid-traffic')
                 else:
                     resp = 'pending'
+                if len(srv.connect_attempts) > n_before:
+                    tags.add('request-opens-connection')
+                    if not srv.reachable:
+                        tags.add('connect-refused')
+                        tags.add('request-connect-refused')
+                if ups and resp == 'ok':
+                    tags.add('served-after-recovery')
                 emit('req %s' % item[1], resp)
             elif name == 'reach':
                 srv.reachable = (item[1] == 'up')
@@ -268,5 +291,5 @@ def run_script(script):
         except Exception:
             pass
         rt.take_errors()
-    cfgtxt = vfmt([c09res.us(cfg[0]), c09res.us(cfg[1]), table])[1:-1]
+    cfgtxt = vfmt([c09res.us(cfg[0]), c09res.us(cfg[1]), table, lo, hi])[1:-1]
     return {'comp': COMPONENT, 'cfg': cfgtxt, 'steps': steps, 'tags': sorted(tags)}
